@@ -18,6 +18,8 @@ RULE = (
     "  Added: number-like / boolean-like / empty level names; the design's own frame evaluated as new data is "
     'held to the same rank and span clauses; a design built on a later frame (fewer levels) that the first '
     'design evaluated as new data. '
+    'Later: 1200-row frames laid out cell by cell with shared level names, a column 1e8 + small under scale / '
+    'center, NaN / inf in the matrix counts as a violation, the data-frame view overwritten by the caller. '
 )
 ASSUMPTIONS = [
     "rank decisions by SVD with a gap check (ambiguous cases are counted as undecided, never as violations)",
